@@ -222,6 +222,7 @@ pub fn gen(seed: u64, n: usize, out: &mut Out) {
                 }
                 // page_rank: directed variant of the same edges, relabelled twin, and a StableGraph with vacancies
                 let mut d = a.clone(); d.directed = true; if r.chance(50) { let extra: Vec<_> = d.edges.iter().map(|e| (e.1, e.0, e.2)).collect(); for e in extra { if r.chance(40) { d.edges.push(e); } } }
+                if r.chance(35) { let k = r.below(d.n); d.edges.push((k, k, 1)); if r.chance(50) { d.edges.retain(|e| e.0 != k || e.1 == k); } }   // a self-loop; sometimes the node's only out-edge
                 let (tw, perm) = relabelled(&d, &mut r);
                 let g1 = plain_graph::<Directed>(&d); let g2 = plain_graph::<Directed>(&tw);
                 q_pagerank(&g1, &g2, &perm, out);
